@@ -9,14 +9,14 @@ from ..core import Disc, Subcheck, exc_detail, exc_key
 PROPERTY_ID = 'C11'
 LEVEL = 'exploration'
 RULE = ('the real Bus and 2-4 real DBusClientConnections (real handshake, Hello, RequestName, export) wired through '
-        'scheduler-owned links; one client exports a generated object (1-3 methods, argument and return signatures and '
+        'scheduler-owned links; one or several clients each export their own instance (same object path) of a generated object (1-3 methods, argument and return signatures and '
         'values from the C01 space, implementations returning values / tuples, raising, or returning Deferreds fired or '
         'failed later by the harness); the others obtain proxies by explicit interface object, by known interface name or '
         'by introspection and issue 1-3 concurrent calls, each carrying a unique token. random: the bytes in flight are '
         'delivered under a Hypothesis-drawn schedule of (link/direction choice, chunk size) with byte-level splitting. '
         'dfs: for small scenarios (2 clients, <=2 concurrent calls, cross calls) EVERY message-granular delivery order is '
         'explored by systematic re-execution. oracle at quiescence: every call Deferred fired exactly once; the exporter '
-        'ran the method exactly once per call with equal arguments; the caller got the documented return-value convention '
+        'ran the method exactly once per call with equal arguments, on the instance exported by the addressed client; the caller got the documented return-value convention '
         'applied to what the method returned, or a RemoteError whose name and message mirror what it raised; no result is '
         'crossed between concurrent calls. Non-trivial = >=2 calls in flight, or an introspected proxy, or a '
         'container-typed argument; distinct = distinct case JSON.')
@@ -68,7 +68,7 @@ def _setup(case):
     ns = {'dbusInterfaces': [iface]}
 
     def _impl(self, name, tok, args):
-        state['log'].append((name, tok, list(args)))
+        state['log'].append((name, tok, list(args), getattr(self, 'owner_index', None)))
         oc = state['outcomes'][tok]
         spec = [m for m in case['methods'] if m['name'] == name][0]
         k = oc['kind']
@@ -97,7 +97,9 @@ def _setup(case):
     Obj = type('Calc', (O.DBusObject,), ns)
     for ei in _exporters(case):
         exp = conns[ei]
-        exp.exportObject(Obj('/calc'))
+        obj = Obj('/calc')
+        obj.owner_index = ei        # every exporter exports its own instance under the same path
+        exp.exportObject(obj)
         r = []
         exp.requestBusName(SVC + str(ei)).addBoth(r.append)
         if not net.run_fifo() or r != [1]:
@@ -221,6 +223,10 @@ def _execute(case, choices=None):
                 if runs[0][0] != spec['name'] or not R.nf_equal(runs[0][2], exp_args):
                     out.append(Disc('invoke.arguments', 'call %d: sent %s%r, method %s got %r' % (
                         tok, spec['name'], exp_args, runs[0][0], runs[0][2])))
+                if runs[0][3] != _route(case, call)[1]:
+                    out.append(Disc('invoke.wrong-exporter', 'call %d was addressed to the object of client %d and ran on '
+                                                             'the object exported by client %r' % (
+                                                                 tok, _route(case, call)[1], runs[0][3])))
             res = results[tok]
             if len(res) != 1:
                 out.append(Disc('result.count:%d' % min(len(res), 2), 'call %d: Deferred fired %d times' % (tok, len(res))))
